@@ -23,6 +23,20 @@ def energies(env_df, z, rng, nrand, knots_step):
             es.update([lo * (1 - d), lo * (1 + d), hi * (1 - d), hi * (1 + d)])
         for _ in range(nrand):
             es.add(math.exp(math.log(lo) + rng.random() * (math.log(hi) - math.log(lo))))
+        # every doubled knot of the photo table (an absorption edge as the table sees it), hit exactly: the energy whose logarithm is bit-equal
+        # to the knot, with its two neighbours in the double grid (the grid point before it is then a lookup just below the edge)
+        for k in range(len(xs) - 1):
+            if xs[k] == xs[k + 1]:
+                # the knot as the library holds it (the build keeps 11 significant digits) and as the data file prints it
+                for kn in {xrl.round11(xs[k]), xs[k]}:
+                    c = math.exp(kn) / 1000.0
+                    for _ in range(40):       # a dozen neighbouring doubles share one logarithm: start well below and take the first that hits
+                        c = math.nextafter(c, 0.0)
+                    for _ in range(90):
+                        if math.log(c * 1000.0) == kn:
+                            es.update([math.nextafter(c, 0.0), c, math.nextafter(c, math.inf)])
+                            break
+                        c = math.nextafter(c, math.inf)
     for (zz, sh), e in env_df["edges"].items():
         if zz == z and e > 0:
             es.update([e * (1 - 1e-9), e, xrl.round11(e), e * (1 + 1e-9)])
